@@ -10,6 +10,7 @@ import (
 
 	"github.com/resonatehq/resonate/pkg/receiver"
 	"github.com/resonatehq/resonate/pkg/promise"
+	"github.com/resonatehq/resonate/pkg/schedule"
 	"github.com/resonatehq/resonate/pkg/callback"
 	"github.com/resonatehq/resonate/pkg/idempotency"
 	"context"
@@ -159,6 +160,17 @@ func vhPromiseReply(out *pb.Promise, p *promise.Promise) bool {
 	// (header and tag maps and the keys are compared where the reply is the subject: VH_G_ReadPromise, C20)
 	return vx.And(out.Id == p.Id, out.Timeout == p.Timeout, vx.BytesEq(out.Param.Data, p.Param.Data), vx.BytesEq(out.Value.Data, p.Value.Data),
 		vx.Implies(p.CreatedOn != nil, out.CreatedOn == vx.Int64PtrVal(p.CreatedOn)), vx.Implies(p.CompletedOn != nil, out.CompletedOn == vx.Int64PtrVal(p.CompletedOn)))
+}
+
+func vhScheduleReply(out *pb.Schedule, sc *schedule.Schedule) bool {
+	if sc == nil {
+		return out == nil
+	}
+	if out == nil || out.PromiseParam == nil {
+		return false
+	}
+	return vx.And(out.Id == sc.Id, out.Cron == sc.Cron, out.Description == sc.Description, out.PromiseId == sc.PromiseId, out.PromiseTimeout == sc.PromiseTimeout,
+		out.NextRunTime == sc.NextRunTime, out.CreatedOn == sc.CreatedOn, vx.BytesEq(out.PromiseParam.Data, sc.PromiseParam.Data))
 }
 
 func vhCallbackReply(out *pb.Callback, c *callback.Callback) bool {
@@ -459,7 +471,9 @@ func VH_G_ReadSchedule() {
 	if k.calls == 1 {
 		vx.Assert(k.req.ReadSchedule.Id == r.Id, "C20:request-fields-copied")
 	}
-	vhReply(k, out != nil, err)
+	if vhReply(k, out != nil, err) {
+		vx.Assert(vhScheduleReply(out.Schedule, k.res.ReadSchedule.Schedule), "C15:reply-carries-the-kernel-resource")
+	}
 }
 
 func VH_G_SearchSchedules() {
@@ -495,7 +509,9 @@ func VH_G_CreateSchedule() {
 		vx.Assert(q.Id == r.Id && q.Cron == r.Cron && q.PromiseId == r.PromiseId && q.PromiseTimeout == r.PromiseTimeout && vx.MapEq(q.Tags, r.Tags) && vx.MapEq(q.PromiseTags, r.PromiseTags) && q.Description == r.Description, "C15:request-fields-copied")
 		vx.Assert(vx.And(vhKeyIs(q.IdempotencyKey, r.IdempotencyKey), vhValueIs(q.PromiseParam, r.PromiseParam)), "C20:request-fields-copied")
 	}
-	vhReply(k, out != nil, err)
+	if vhReply(k, out != nil, err) {
+		vx.Assert(vhScheduleReply(out.Schedule, k.res.CreateSchedule.Schedule), "C15:reply-carries-the-kernel-resource")
+	}
 }
 
 func VH_G_DeleteSchedule() {
